@@ -36,6 +36,8 @@ def fault_cases():
             return files, argv
 
         cases.append(("missing-file/" + pos, *place(["-m", "Root", "nope.json"]), True))
+        for odd in ("users[2].json", "data[1]/x.json", "a{b}.json", "x!y.json", "[ab].json"):
+            cases.append((f"missing-file-{odd.replace('/', '-')}/" + pos, *place(["-m", "Root", odd]), True))
         cases.append(("malformed-json/" + pos, *place(["-m", "Root", "bad.json"], {"bad.json": '[{"a": 1},'}), True))
         cases.append(("lookup-missing-key/" + pos, *place(["-m", "Root", "x.y", "good1w.json"], {"good1w.json": {"x": {"z": GOOD}}}), True))
         cases.append(("lookup-to-scalar/" + pos, *place(["-m", "Root", "x", "sc.json"], {"sc.json": {"x": 5}}), True))
